@@ -125,6 +125,9 @@ theorem evalMaps_append (ms : List MapF) (m : MapF) (x : Item A) :
     | error e => rfl
     | ok y => exact ih y
 
+/-- a map inserted at the front of `imap` acts on the source row -/
+theorem evalMaps_ident_cons (ms : List MapF) (x : Item A) : evalMaps (.ident :: ms) x = evalMaps ms x := rfl
+
 theorem evalFilts_append (cmp : Op → A → A → Bool) (fs : List (Filt A)) (f : Filt A) (r : List A)
     (b b' : Bool) (h1 : evalFilts cmp fs r = .ok b) (h2 : evalFilt cmp f r = .ok b') :
     evalFilts cmp (fs ++ [f]) r = .ok (b && b') := by
@@ -185,6 +188,7 @@ theorem rsplitDot_some : ∀ (s h t : List Char), rsplitDot s = some (h, t) →
 
 /-- the stream `s` records the reference state `st` (sequence id `id`, header `all`) -/
 structure Rel (cmp : Op → A → A → Bool) (id : Name) (all : List Name) (s : Stream A) (st : Ref A) : Prop where
+  root : s.root.id = id ∧ s.root.all = all
   filt : ∀ r : List A, r.length = all.length →
     evalFilts cmp s.ifilter r = .ok (st.conds.all (refCond cmp all r))
   maps : ∀ r : List A, r.length = all.length →
